@@ -233,7 +233,7 @@ func eiaBits(x *mon.Ctx) {
 	reps := x.Scale(1, 3)
 	for ai := range macAlgs {
 		for nbits := 0; nbits <= maxBits; nbits++ {
-			for ki, kind := range bitKinds {
+			for _, kind := range bitKinds {
 				for rep := 0; rep < reps; rep++ {
 					c := x.Begin("bits alg=%s-%d nbits=%d kind=%s rep=%d: Finish(p, nbits) on a fresh object, then reuse", macAlgs[ai].alg, 8*macAlgs[ai].tag, nbits, kind, rep)
 					if c == nil {
@@ -245,10 +245,11 @@ func eiaBits(x *mon.Ctx) {
 						c.Trivial()
 					}
 					c.Class("eia.bits/%s/%s/%s", m.name(), bitClass(nbits), kind)
-					hi := (nbits+ki+rep)%2 == 0
+					pl := place(r.Intn(nPlaces))
+					c.Class("eia.place/%s/Finish@%v", m.name(), pl)
 					g := eiaGuard()
 					msg := bitMessage(r, kind, nbits)
-					p := g.Put(msg, hi)
+					p := pl.put(g, msg)
 					var h zuc.EIA
 					var err error
 					if !c.Call("constructor", func() { h, err = m.build() }) {
@@ -277,7 +278,7 @@ func eiaBits(x *mon.Ctx) {
 						// the object must now be as good as new
 						n2 := r.Intn(520)
 						msg2 := bitMessage(r, "random", n2)
-						p2 := g.Put(msg2, !hi)
+						p2 := pl.next(1+r.Intn(nPlaces-1)).put(g, msg2)
 						switch r.Intn(3) {
 						case 0:
 							if c.Call("second Finish", func() { got = h.Finish(p2, n2) }) {
@@ -367,11 +368,11 @@ func byteClass(n int) string {
 }
 
 // writeAll feeds msg to h in the given parts through guarded source buffers.
-func writeAll(c *mon.Case, h zuc.EIA, msg []byte, parts []int, hi bool) bool {
+func writeAll(c *mon.Case, h zuc.EIA, msg []byte, parts []int, pl place) bool {
 	g := eiaGuard()
 	off := 0
 	for i, k := range parts {
-		p := g.Put(msg[off:off+k], hi != (i%2 == 1))
+		p := pl.next(i).put(g, msg[off:off+k])
 		var n int
 		var err error
 		if !c.Call(fmt.Sprintf("Write #%d of %d bytes at %d", i, k, off), func() { n, err = h.Write(p) }) {
@@ -400,7 +401,7 @@ func eiaBytes(x *mon.Ctx) {
 	reps := x.Scale(1, 3)
 	for ai := range macAlgs {
 		for n := 0; n <= maxLen; n++ {
-			for si, style := range partStyles {
+			for _, style := range partStyles {
 				for rep := 0; rep < reps; rep++ {
 					c := x.Begin("bytes alg=%s-%d len=%d partition=%s rep=%d: Write parts, Sum, Sum, continue, Sum, Reset, again", macAlgs[ai].alg, 8*macAlgs[ai].tag, n, style, rep)
 					if c == nil {
@@ -414,7 +415,8 @@ func eiaBytes(x *mon.Ctx) {
 					c.Class("eia.bytes/%s/%s/%s", m.name(), byteClass(n), style)
 					extra := r.Intn(40)
 					msg := r.Bytes(n + extra)
-					hi := (n+si+rep)%2 == 0
+					pl := place(r.Intn(nPlaces))
+					c.Class("eia.place/%s/Write@%v", m.name(), pl)
 					var h zuc.EIA
 					var err error
 					if !c.Call("constructor", func() { h, err = m.build() }) || err != nil {
@@ -424,7 +426,7 @@ func eiaBytes(x *mon.Ctx) {
 						c.End()
 						continue
 					}
-					eiaBytesCase(c, m, h, msg, n, extra, partition(r, style, n), hi)
+					eiaBytesCase(c, m, h, msg, n, extra, partition(r, style, n), pl)
 					c.End()
 				}
 			}
@@ -432,9 +434,9 @@ func eiaBytes(x *mon.Ctx) {
 	}
 }
 
-func eiaBytesCase(c *mon.Case, m *macSpec, h zuc.EIA, msg []byte, n, extra int, parts []int, hi bool) {
+func eiaBytesCase(c *mon.Case, m *macSpec, h zuc.EIA, msg []byte, n, extra int, parts []int, pl place) {
 	r := c.R
-	if !writeAll(c, h, msg[:n], parts, hi) {
+	if !writeAll(c, h, msg[:n], parts, pl) {
 		return
 	}
 	prefix := r.Bytes(r.Intn(5))
@@ -454,7 +456,7 @@ func eiaBytesCase(c *mon.Case, m *macSpec, h zuc.EIA, msg []byte, n, extra int, 
 		return
 	}
 	// Sum must not have moved the state: go on writing
-	if !writeAll(c, h, msg[n:], []int{extra}, !hi) {
+	if !writeAll(c, h, msg[n:], []int{extra}, pl.next(3)) {
 		return
 	}
 	var s3 []byte
@@ -470,7 +472,7 @@ func eiaBytesCase(c *mon.Case, m *macSpec, h zuc.EIA, msg []byte, n, extra int, 
 		return
 	}
 	k := r.Intn(n + extra + 1)
-	if !writeAll(c, h, msg[:k], []int{k}, hi) {
+	if !writeAll(c, h, msg[:k], []int{k}, pl.next(11)) {
 		return
 	}
 	var s4 []byte
@@ -537,7 +539,9 @@ func eiaHist(x *mon.Ctx) {
 					what = fmt.Sprintf("Write(%d)", n)
 					log = append(log, what)
 					data := r.Bytes(n)
-					alive = writeAll(c, h, data, []int{n}, r.Bool())
+					wp := place(r.Intn(nPlaces))
+					alive = writeAll(c, h, data, []int{n}, wp)
+					c.Class("eia.place/%s/Write@%v", m.name(), wp)
 					absorbed = append(absorbed, data...)
 					c.Class("eia.hist/%s/Write/nx=%d/%s", m.name(), (len(absorbed)-n)%16, lenClass16(n))
 				case o < 7: // Sum
@@ -554,7 +558,9 @@ func eiaHist(x *mon.Ctx) {
 						nb = 0
 					}
 					tail := bitMessage(r, "random+junk", nb)
-					p := g.Put(tail, r.Bool())
+					fp := place(r.Intn(nPlaces))
+					p := fp.put(g, tail)
+					c.Class("eia.place/%s/Finish@%v", m.name(), fp)
 					what = fmt.Sprintf("Finish(%d bits)", nb)
 					log = append(log, what)
 					var s []byte
